@@ -77,6 +77,52 @@ def loop_variants():
     return obs
 
 
+@structural("C09", "extends-cycle-guard")
+def extends_cycle_guard():
+    """the chain walk loads template X only after `X in seen` failed and X was added to `seen`:
+    every iteration adds a new element of the finite set of template names (variant), so a
+    circular chain is cut off -- for the sync and the async walk alike"""
+    obs = []
+    mod = load.get_module("liquid.extra.tags.extends_tag")
+    for fname in ("_build_block_stacks", "_build_block_stacks_async"):
+        fn = mod.funcs[fname]
+        tests = [flow.dotted(c.left) for c in ast.walk(fn) if isinstance(c, ast.Compare) and len(c.ops) == 1 and isinstance(c.ops[0], ast.In) and flow.dotted(c.comparators[0]) == "seen"]
+        adds = [flow.dotted(c.args[0]) for c in flow.calls(fn) if flow.dotted(c.func) == "seen.add" and c.args]
+        loads = [flow.dotted(c.args[0]) for c in flow.calls(fn) if flow.call_name(c) in ("get_template", "get_template_async") and c.args]
+        ok = len(tests) == 1 and adds == tests and loads == tests
+        obs.append(flow.ob(f"{fname}:the-name-tested-is-the-name-recorded-is-the-name-loaded", ok, f"tested {tests}, recorded {adds}, loaded {loads}", replay_schema="code", replay_extra={"code": REPLAY_EXTENDS}))
+        # the guard raises
+        guards = [i for i in ast.walk(fn) if isinstance(i, ast.If) and "in seen" in flow.dotted(i.test)]
+        obs.append(flow.ob(f"{fname}:a-repeated-name-raises-TemplateInheritanceError", bool(guards) and all(any(isinstance(x, ast.Raise) and "TemplateInheritanceError" in flow.dotted(x.exc) for x in g.body) for g in guards), ""))
+    return obs
+
+
+REPLAY_EXTENDS = r'''
+def run(m):
+    import asyncio, signal
+    from liquid import DictLoader, Environment
+    from liquid.exceptions import TemplateInheritanceError
+    class Hang(BaseException):
+        pass
+    def alarm(*_):
+        raise Hang()
+    signal.signal(signal.SIGALRM, alarm)
+    env = Environment(extra=True, loader=DictLoader({"d/a": "{% extends 'd/b' %}", "d/b": "{% extends 'd/a' %}"}))
+    out = []
+    for f in (lambda: env.get_template("d/a").render(), lambda: asyncio.run(env.get_template("d/a").render_async())):
+        signal.setitimer(signal.ITIMER_REAL, 5)
+        try:
+            f(); out.append("completed")
+        except TemplateInheritanceError:
+            out.append("cut-off")
+        except Hang:
+            out.append("hang")
+        finally:
+            signal.setitimer(signal.ITIMER_REAL, 0)
+    return {"violated": out != ["cut-off", "cut-off"], "observed": out}
+'''
+
+
 @contract(CTX + ".copy", prop="C09", name="copy[depth-ghost]")
 def copy_depth(c):
     env = mk_env(c)
